@@ -195,14 +195,18 @@ def handleQ (w t deps nodes queries : String) : String :=
     else ",".intercalate outs
   | _, _, _, _, _ => "bad-op"
 
+def handleSubs (subs : String) : String :=
+  "|".intercalate ((subs.splitOn "|").map fun sub =>
+    match sub.splitOn "/" with
+    | [w, t, deps, nodes, queries] => handleQ w t deps nodes queries
+    | _ => "bad-op")
+
 def handle : List String → String
   | ["q", w, t, deps, nodes, queries] => handleQ w t deps nodes queries
-  | ["par", subs] =>
-    -- independent instances (run concurrently on the Go side): each answers as it would alone
-    "|".intercalate ((subs.splitOn "|").map fun sub =>
-      match sub.splitOn "/" with
-      | [w, t, deps, nodes, queries] => handleQ w t deps nodes queries
-      | _ => "bad-op")
+  -- independent instances: concurrently (par) or one after the other (seq) on the Go side; each
+  -- answers as it would alone
+  | ["seq", subs] => handleSubs subs
+  | ["par", subs] => handleSubs subs
   | ["str", n] =>
     match n.toNat? with
     | some n => stateName (n % 256)
